@@ -413,6 +413,72 @@ Definition judge_multi (ts : list utree) (os : list sexp) : verdict :=
       end
     end.
 
+(** the callback keeps some proposals applied and lets the enumeration go on (one sweep of an
+    accept-on-the-fly search).  Outside the literal quantifier of the property (Apply/Undo in
+    enumeration order); judged by the per-proposal clauses read against the tree AS IT IS WHEN
+    THE PROPOSAL IS HANDED OUT: applying it gives a well-formed tree on the same tips with
+    exactly one split replaced (kept splits with their data), undoing it restores that tree
+    exactly (dump and text), no error.  No model is involved (oracle only). *)
+Record visit_obs : Type := mkVO {
+  vo_kept : bool; vo_err : string; vo_po : prop_obs;
+  vo_undo : option (string * utree * list string * string) }.
+
+Definition dec_visit (s : sexp) : option visit_obs :=
+  k <- get_bool "kept" s ;; e <- get_string "err" s ;; g <- get_tree "tree" s ;; nw <- get_string "nw" s ;;
+  i <- get_nat "idx" s ;;
+  let u := match get_string "uerr" s, get_tree "utree" s, get_strings "uaudit" s, get_string "unw" s with
+           | Some ue, Some ut, Some ua, Some un => Some (ue, ut, ua, un)
+           | _, _, _, _ => None
+           end in
+  Some (mkVO k e (mkPO g s nw i []) u).
+
+Fixpoint greedy_check (cur : utree) (curnw : string) (vs : list visit_obs) : string + (utree * string) :=
+  match vs with
+  | [] => inr (cur, curnw)
+  | v :: r =>
+    let i := po_idx (vo_po v) in
+    let pre := "proposal " ++ string_of_nat i ++ (if vo_kept v then " (kept): " else ": ") in
+    if negb (String.eqb (vo_err v) "") then inl (pre ++ "Apply on the tree as it is when the proposal is handed out: error " ++ vo_err v)
+    else match neighbour_check cur i (vo_po v) with
+         | inl m => inl (m ++ " (against the tree as it is when the proposal is handed out)")
+         | inr _ =>
+           if vo_kept v then greedy_check (po_tree (vo_po v)) (po_nw (vo_po v)) r
+           else match vo_undo v with
+                | None => inl (pre ++ "harness: no observation after Undo")
+                | Some (ue, ut, ua, un) =>
+                  if negb (String.eqb ue "") then inl (pre ++ "Undo: error " ++ ue)
+                  else match ua with
+                       | a :: _ => inl (pre ++ "after Undo, structural audit: " ++ a)
+                       | [] => if utree_eqb ut cur && String.eqb un curnw then greedy_check cur curnw r
+                               else inl (pre ++ "Undo does not restore the tree as it was: " ++ un)
+                       end
+                end
+         end
+  end.
+
+Definition judge_greedy (t : utree) (o : sexp) : verdict :=
+  match get "panic" o with
+  | Some m => VOracle ("the implementation panicked: " ++ match m with Atom a => a | _ => "" end)
+  | None =>
+    match get_tree "orig" o, get_string "nw0" o, (x <- get "visits" o ;; dec_list dec_visit x),
+          get_tree "final" o, get_string "nwf" o with
+    | Some g0, Some nw0, Some vs, Some gf, Some nwf =>
+      if negb (utree_eqb t g0) then VBad "harness: the tree built is not the tree of the case"
+      else match greedy_check g0 nw0 vs with
+           | inl m => VOracle m
+           | inr (cur, curnw) =>
+             match audit_ok o with
+             | Some m => VOracle m
+             | None =>
+               if utree_eqb gf cur && String.eqb nwf curnw
+               then VOk (existsb vo_kept vs) "greedy"
+               else VOracle ("after the enumeration the tree is not the one left by the kept proposals: " ++ nwf)
+             end
+           end
+    | _, _, _, _, _ => VBad "undecodable observation"
+    end
+  end.
+
 (** a second enumeration started from inside the callback of the first one, with the same
     rearranger value, while proposal [at] is applied: on another tree ([nested]) or on the
     same tree object, i.e. on that neighbour of the case's tree; both enumerations are judged
@@ -441,6 +507,9 @@ Definition judge (c o : sexp) : verdict :=
   | None =>
     match get_tree "tree" c with
     | Some t =>
+      match get "keep" c with
+      | Some _ => judge_greedy t o
+      | None =>
       match get "at" c with
       | Some _ =>
         match nested_trees c t, (r <- get "runs" o ;; list_of r) with
@@ -456,6 +525,7 @@ Definition judge (c o : sexp) : verdict :=
       match get "ops" c, ops with
       | Some _, None => VBad "undecodable operations"
       | _, _ => judge_one t o ops collect
+      end
       end
       end
     | None => VBad "undecodable case or observation"
